@@ -198,6 +198,9 @@ class C20(Base):
             exp, _ = ref_dom(s, f, e, m)
         if out != exp:
             return "output %s != reference %s" % (d["ok"], hx(exp))
+        if d.get("x", "same").startswith("RACE:FIRST-CALL-PANICS"):
+            return ("transform_dom panicked when the FIRST calls of the process were made by 8 threads at the same instant "
+                    "(%s of them): something initialised lazily on first use is not ready for every caller" % d["x"].rpartition("-")[2])
         if d.get("x", "same") != "same":
             return ("transform_dom is not a function of its arguments: called while another thread transforms the same text "
                     "in another style it returned " + d["x"][:90])
